@@ -106,6 +106,14 @@ def handle (line : String) : String :=
     match parseNat word, parseKind k, parseBOp op, parseInt x, parseInt y with
     | some w, some kk, some o, some a, some b => showVerdict (declBinUntyped (q = "qw1") w kk o a b)
     | _, _, _, _, _ => "bad-op"
+  | [q, "dbin2t", word, k, op1, op2, x, y, z] =>
+    match parseNat word, parseKind k, parseBOp op1, parseBOp op2, parseInt x, parseInt y, parseInt z with
+    | some w, some kk, some o1, some o2, some a, some b, some c => showVerdict (declBin2Typed (q = "qw1") w kk o1 o2 a b c)
+    | _, _, _, _, _, _, _ => "bad-op"
+  | [q, "dbin2u", word, k, op1, op2, x, y, z] =>
+    match parseNat word, parseKind k, parseBOp op1, parseBOp op2, parseInt x, parseInt y, parseInt z with
+    | some w, some kk, some o1, some o2, some a, some b, some c => showVerdict (declBin2Untyped (q = "qw1") w kk o1 o2 a b c)
+    | _, _, _, _, _, _, _ => "bad-op"
   | [_, "dsht", word, k, op, x, s] =>
     match parseNat word, parseKind k, parseSOp op, parseInt x, parseInt s with
     | some w, some kk, some o, some a, some b => showVerdict (declShiftTyped w kk o a b)
